@@ -24,6 +24,7 @@ class LemmaVC(Exec):
         self.fn = None
         self.mi = None
         self.spec_mode = True
+        self.in_recdef = 1  # a lemma is a statement over specification functions: slices are written natively, like in the definitions it unfolds
         self.cur_module = __import__("builtins")
 
 
@@ -37,7 +38,7 @@ def lemma_obligations(lm):
         st.store[v] = ex.sym_of_type(t, v, st)
     st.old = st
     ex.entry = st.clone()
-    for h in lm.hyps:
+    for h in list(lm.hyps) + list(lm.ih):
         st.assume(ex.spec_bool(h, st))
     goal = ex.spec_bool(lm.goal, st)
     ex.oblige(st, "lemma", "goal", goal)
